@@ -150,6 +150,14 @@ def build_harness(race=False, tags="verif"):
     out = HARNESS + ("-race" if race else "")
     env = dict(GOENV)
     cmd = ["go", "build", "-tags", tags, "-o", out]
+    if os.path.realpath(REPO) != "/repo":
+        # mutation / scratch runs: same module, replace directives pointed at $VERIF_REPO
+        mod = open(os.path.join(hdir, "go.mod")).read().replace("=> /repo", "=> " + os.path.realpath(REPO))
+        alt = os.path.join(BUILD, "alt.mod")
+        with open(alt, "w") as f:
+            f.write(mod)
+        shutil.copyfile(os.path.join(REPO, "go.sum"), os.path.join(BUILD, "alt.sum"))
+        cmd += ["-modfile", alt]
     if race:
         env["CGO_ENABLED"] = "1"
         cmd.insert(2, "-race")
